@@ -9,7 +9,7 @@ def run(v, tier):
     rng = random.Random(pi2v.SEED)
     v.assumptions += ['the advertised schema is the docstring, parsed by a 60-line parser in harness/py/lemmas.py (trusted); entry points without a formal docstring are not covered',
                       'pattern parameters are associated to schema variables by name (pat1..3 = a,b,c; pat per table)']
-    reqs, sch = lem.applications(rng, 3 if quick else 10, max_events=1500 if quick else None)
+    reqs, sch = lem.applications(rng, 3 if quick else 8, max_events=1500 if quick else 8000)
     v.cov['entry_points_applied'] = len({q['entry'] for q in reqs})
     results = lem.run_applications(reqs)
     built = [r for r in results if r.get('built')]
